@@ -218,7 +218,7 @@ func (e *Engine) assertAxioms(fc *FnCtx, st *State) {
 			ax := ax
 			vc.safeEval(fmt.Sprintf("%s:%d axiom", ax.File, ax.Line), func() {
 				env := &Env{fc: fc, vc: vc, st: vc.old, vars: map[string]SV{}, bound: map[string]Term{}, nquant: &vc.n, noFc: true}
-				vc.assert(env.evalBool(ax.E))
+				vc.assertGlobal(env.evalBool(ax.E))
 				vc.note("assumed axiom: " + ax.Src)
 			})
 		}
